@@ -96,6 +96,8 @@ PROP = {
         'c04_rdbPipe_source': 'rdb.ParseRdb(reader.IoReader(), &readBytes, config.RdbPipeSize, ro.rdbParseOptions()...)',
         'c04_parseRdb_pipe': 'make(chan *BinEntry, size)',
         'c04_parseRdb_pkg_vars': ['RdbVersion'],
+        # dimension audit: process-global state - no package-level variable of pkg/rdb or pkg/rdbrestore is assigned by any function
+        'c04_pkg_vars_written': [],
         'c04_parseRdb_sends': [5, 5],
         'c04_reader_per_run': {'readChannel': 'ri.channel.NewReader(readerOffset.ToOffset())', 'run': 'ri.readChannel(runScope, startPoint)'},
     },
@@ -207,6 +209,24 @@ PROP = {
             "one aborted by a target error / cancellation with rdbPipe so small that rdb.ParseRdb stays blocked (5 scenarios, the stale "
             "goroutine still there): same monitors; tied to the model's clean run. A trace / multiplicity DIFF alone is a broken tie "
             "(no-failing-input-found), violations with replay come from the Go monitors. "
+            "Dimension audit (session 5, last round) - options and degenerate inputs now DRAWN, each value counted in the evidence "
+            "(cfg_<option>_<value>): replayRdbParallel 1 / 2 / 3-4 / 8 / 16 (more workers than entries) x RdbPipeSize 1 / 2 / 3-4 / "
+            "5-99 / 1024; bisync; replayRdbEnableRestore; resumeFromBreakPoint; keyExists replace / ignore / error; cluster; "
+            "replaceHashTag on (keys with a brace pair, the key '{}' that becomes the empty key; routing and the expected target key "
+            "follow the rewritten key); maxProtoBulkLen small (restore on, the long value expanded); targetDb set; dbBlacklist set "
+            "(filtered entries are not required on the target, the others are); AUX lua. New scenario file 'edge' in (3) - the EMPTY "
+            "key, an empty string value, tagged keys, equal list elements, database 3, an expiry - under every fault of (3); an "
+            "empty-key entry in two s1 trees (2 and 8 workers over a pipe of 1). (3) the FINAL CHECKPOINT WRITE refused once "
+            "(setCheckpoint retries: recorded) and for good (monitor checkpoint-counted-though-refused; the checkpoint scan no "
+            "longer counts an HSET the target refused). (3f) the 34 Redis-produced fixtures <= 700 B (thorough 2000 B) - among them "
+            "FUNCTION libraries: the function-load path - plain and bidirectional under a target error at EVERY request, reply "
+            "families in rotation; data set unknown, so: a replay that returns nil / writes the checkpoint must have executed every "
+            "request the undisturbed replay of that file executes (incomplete-reported-ok / incomplete-checkpointed). (sd) degenerate "
+            "snapshots through the whole pipeline: no entry at all (with checksum and with the zero footer), one entry with the empty "
+            "key and the empty value, the mixed file with the checksum DISABLED; intact = recorded and complete, and every cut of "
+            "each - 0 bytes, exactly the 9 header bytes, 10 bytes, the EOF opcode without / with part of the footer - is an error in "
+            "parser and pipeline (monitors truncation-accepted, truncation-replayed-ok). Source fact c04_pkg_vars_written = []: no "
+            "package-level variable of pkg/rdb / pkg/rdbrestore is assigned by any function (process-global state: none). "
             "distinct_nontrivial = distinct (file, position) alteration rows + distinct fan-out scenario points + distinct enumerated traces",
     "trusted": [
         "RDB framing (opcodes, length forms, string forms, per-type value layout) as transcribed in Model/RdbFrame.lean / "
@@ -346,6 +366,14 @@ PROP = {
         "decides). alteration_is_error_gen remains only as the combinator lemma for STATELESS readers; its single instance is still "
         "the old grammar with unsup read as an error (itemT) - nothing rests on it any more. NOT done: a theorem that the old "
         "grammar and the extended one agree wherever the old one decides (both are tied to the real parser separately)",
+        "dimension audit, what is still NOT drawn by C04's harness: targetDbMap and the key / slot filters (prefix black list, "
+        "FilterSlot) - C20 draws them for the replay's values; here only targetDb and dbBlacklist; a CLUSTER target with PLAIN "
+        "(non-bidirectional) replay (the double speaks per-connection stand-alone only; cluster is drawn with bidirectional replay, "
+        "which dials the primaries one by one); Redis.Version other than 7.0.0 on the target side (RESTORE with IDLETIME/FREQ "
+        "needs >= 5; the parse options WithTargetRedisVersion / WithFunctionExists are not varied in the pipeline runs, "
+        "failOnModuleAux is, in x1); an altered byte under a DISABLED checksum is by the statement not detectable and is not "
+        "judged; a non-empty target before the FIRST replay (leftovers are drawn only by s3's second replay and by the keyExists "
+        "policies of (3b))",
         "gofn (regenerated definitions) for the allocation-sizing readers: NOT done. ReadLength / ReadBytes / the LZF string reader "
         "read through an io.Reader receiver and return errors, lzfRoom uses append(out, make([]byte, k)...), lzfDecompress a "
         "deferred recover: all outside gofn's pure subset (needs: a state-passing reading of r.readFull / ReadByte over List UInt8, "
